@@ -130,7 +130,7 @@ func TestC16Convergence(t *testing.T) {
 			bound = 2*bound + n
 			rec.Exclude(c16KeyWrapDelay)
 		}
-		run := gen((bound + n - 1) / n + 1)
+		run := gen((bound+n-1)/n + 1)
 		converged := -1
 		for i, p := range run {
 			feed(p, false)
